@@ -60,24 +60,30 @@ func (e *Engine) queryText(o *Obligation, axioms []axFact, seed int, solver stri
 	return b.String()
 }
 
+// solverCmd: the time limit is a CPU-time limit (ulimit -t), so that a loaded machine does not turn a proof that
+// takes a few seconds into a timeout; the solver's own wall-clock limit is three times larger and only a safety net.
 func solverCmd(name, file string, timeout time.Duration, seed int) *exec.Cmd {
 	secs := int(timeout.Seconds())
 	if secs < 1 {
 		secs = 1
 	}
+	wall := 3 * secs
+	var line string
 	switch name {
 	case "z3":
-		return exec.Command("z3", fmt.Sprintf("-T:%d", secs), file)
+		line = fmt.Sprintf("exec z3 -T:%d %q", wall, file)
 	case "z3-new":
-		return exec.Command("z3-new", fmt.Sprintf("-T:%d", secs), file)
+		line = fmt.Sprintf("exec z3-new -T:%d %q", wall, file)
 	case "cvc5":
-		args := []string{fmt.Sprintf("--tlimit=%d", secs*1000)}
+		line = fmt.Sprintf("exec cvc5 --tlimit=%d", wall*1000)
 		if seed != 0 {
-			args = append(args, fmt.Sprintf("--seed=%d", seed))
+			line += fmt.Sprintf(" --seed=%d", seed)
 		}
-		return exec.Command("cvc5", append(args, file)...)
+		line += fmt.Sprintf(" %q", file)
+	default:
+		panic("unknown solver " + name)
 	}
-	panic("unknown solver " + name)
+	return exec.Command("sh", "-c", fmt.Sprintf("ulimit -t %d; %s", secs+1, line))
 }
 
 // raceSem bounds the number of obligations raced on three solvers at once (keeps timings stable under load)
